@@ -10,7 +10,8 @@
     offset [k + |p|] and the stream continues with ITS stitched stream. *)
 From Coq Require Import List ZArith NArith Bool.
 From BBS Require Import Common.Sx Buffer.Source Buffer.Validate Buffer.Convert Buffer.ErrHandler
-  Buffer.StreamProofs Buffer.ValidateProofs Buffer.ErrHandlerProofs Run.R09 Run.R16.
+  Buffer.StreamProofs Buffer.ValidateProofs Buffer.ErrHandlerProofs Buffer.ClosedOnceProofs
+  Buffer.ErrHandlerStackProofs Buffer.StackRuleProofs Run.R09 Run.R16 Run.R16Proofs.
 Import ListNotations.
 Open Scope N_scope.
 
@@ -84,6 +85,109 @@ Theorem done_exactly_once : forall H cfg fuel b0 answers m,
 Proof. exact run_case_done_once. Qed.
 Print Assumptions done_exactly_once.
 
+(** * Stacks of error handlers: [WithErrorHandler(... WithErrorHandler(b0, h0) ..., hk)]
+
+    [run_stack H cfg fuel b0 anss m]: [anss] are the scripts of the handlers,
+    innermost first (any depth); [y_logs] the calls each handler received;
+    [y_closes] the Close() count of the scripted source of every stream-backed
+    plain buffer that was created (the original and every replacement supplied
+    by any level), taken from the source itself when its reader is given up. *)
+
+(** Done is reported exactly once to the handler of EVERY level of a stack, on
+    every path: all buffers, all handler scripts at every level (replacements,
+    errors, too few answers), all methods, offsets, chunk sizes, digests, any
+    fuel; including handler failure at all levels, Discard and invalid offsets. *)
+Theorem done_exactly_once_at_every_level : forall H cfg fuel b0 anss m,
+  (length (y_logs (run_stack H cfg fuel b0 anss m)) = length anss)%nat /\
+  Forall (fun log => count_done log = 1%nat) (y_logs (run_stack H cfg fuel b0 anss m)).
+Proof. exact run_stack_done_every_level. Qed.
+Print Assumptions done_exactly_once_at_every_level.
+
+(** Every underlying buffer that was opened is closed exactly once, on every
+    path (success, replacement by any level, failure of all handlers, Discard,
+    invalid offsets, failed construction of an offset reader). *)
+Theorem every_source_closed_exactly_once : forall H cfg fuel b0 anss m,
+  Forall (fun n => n = 1%nat) (y_closes (run_stack H cfg fuel b0 anss m)).
+Proof. exact run_stack_closed_once. Qed.
+Print Assumptions every_source_closed_exactly_once.
+
+(** ... and so does every whole operation on a plain stream-backed buffer
+    (C09's buffers: every method of a CAS chunk-reader / reader buffer closes the
+    scripted source exactly once), which is what tryRepeatedly relies on. *)
+Theorem plain_buffer_closes_source_once : forall H cfg fuel b m,
+  Forall (fun n => n = 1%nat) (closes_of b (plain H cfg fuel b m)).
+Proof. exact plain_closed_once. Qed.
+Print Assumptions plain_buffer_closes_source_once.
+
+(** The offering rule for stacks, over a whole run.  [ruled anss logs]
+    (Buffer/StackRuleProofs.v): every level l has a trace [g_tr] of (error
+    offered, answer given) pairs such that
+    - [hrun]: the handler state whose log is [logs_l] is what the scripted
+      handler with script [anss_l] becomes by being offered exactly the errors
+      of the trace, one OnError call each, giving the answers of the trace (so
+      the trace's errors are the OnError calls of the log, [trace_is_log]);
+    - [gvalid]: all its answers are replacements, or the LAST one is an error
+      and all earlier ones replacements: a handler that has answered with an
+      error is not asked again ([not_asked_again_after_error]);
+    - [chain]: for neighbouring levels ([adj inner outer]) either the inner
+      handler has not answered with an error and the outer handler has not been
+      asked at all, or the inner handler's last answer is the error c and the
+      FIRST error the outer handler was offered is c.  An I/O error of an
+      underlying buffer therefore reaches the innermost active handler first,
+      and an outer handler only ever sees what the handler below it returned
+      (then, after it has supplied a replacement, that replacement's errors).
+    For all buffers, all handler scripts at every level, all methods, offsets,
+    chunk sizes, digests, any fuel, any depth. *)
+Theorem stack_offering_rule : forall H cfg fuel b0 anss m,
+  ruled anss (y_logs (run_stack H cfg fuel b0 anss m)).
+Proof. exact run_stack_ruled. Qed.
+Print Assumptions stack_offering_rule.
+
+Theorem trace_is_log : forall ans h tr, hrun ans h tr -> onerrors (h_log h) = map fst tr.
+Proof. exact hrun_log. Qed.
+Print Assumptions trace_is_log.
+
+Theorem not_asked_again_after_error : forall g, gvalid g -> Forall isrep (removelast (g_tr g)).
+Proof. exact gvalid_not_asked_again. Qed.
+Print Assumptions not_asked_again_after_error.
+
+(** The rule for one offering ([escalate], the one place where the nested
+    readers and the nested tryRepeatedly calls pass an error upwards): [e] is
+    offered to the innermost active handler first; the error answer of a
+    handler is exactly what the next outer handler is offered; handlers above a
+    replacing handler are not asked; the error answer of the outermost handler
+    is the result; and each handler asked receives exactly ONE further OnError
+    call, with the error of the chain (all other logs unchanged). *)
+Theorem offering_rule_single_offering : forall act e,
+  let '(r, passed, act') := escalate e act in offering e act r passed act'.
+Proof. exact escalate_offering. Qed.
+Print Assumptions offering_rule_single_offering.
+
+Theorem each_error_offered_once_per_level : forall act e r passed act',
+  escalate e act = (r, passed, act') ->
+  map h_log (passed ++ act') = grow act (offer_chain e act) \/
+  (fst r = None /\ act' = [] /\ map h_log passed = grow act (offer_chain e act)).
+Proof. exact escalate_logs. Qed.
+Print Assumptions each_error_offered_once_per_level.
+
+(** The monitor's new clauses 8 (Done = 1 at every level) and 9 (every
+    underlying reader closed once) hold of the model's own observation for every
+    input: on the unchanged tree they can only fire where the implementation's
+    observation differs from the model's. *)
+Theorem new_monitor_clauses_silent_on_model : forall inp,
+  clause8 (q_anss (dec_case16 inp)) (obs_dones (run16 inp)) = true /\
+  clause9 (obs_closes (run16 inp)) = true.
+Proof. exact clauses_8_9_silent_on_model. Qed.
+Print Assumptions new_monitor_clauses_silent_on_model.
+
+(** ... and so does clause 10, the stack offering rule in the monitor's own
+    (boolean, script-indexed) form: [stack_offering_rule] carried over to the
+    encoded observation. *)
+Theorem stack_rule_clause_silent_on_model : forall inp,
+  clause10 (q_anss (dec_case16 inp)) (obs_offered (run16 inp)) = true.
+Proof. exact clause_10_silent_on_model. Qed.
+Print Assumptions stack_rule_clause_silent_on_model.
+
 (** Non-vacuity: the original fails after one byte, the replacement is opened
     at offset 1; the consumer gets 1,2,3 once each, validation succeeds, the
     error 14 is offered once and Done is reported once. *)
@@ -93,4 +197,28 @@ Example c16_stitches :
   run_case H cfg 60 (BChunk [Chunk [1]; Err 14; Chunk [7]])
            [Replace (BChunk [Chunk [1; 2]; Chunk [3]])] MIntoWriter
   = mkOut16 [1; 2; 3] ENone [] [true] [HOnError (ECode 14); HDone] [].
+Proof. vm_compute. reflexivity. Qed.
+
+(** Non-vacuity for stacks: two handlers, an I/O error after one byte that
+    neither repairs (the inner one answers 7, the outer one 9): 14 is offered to
+    the inner handler, 7 to the outer one, the consumer gets 9; both handlers
+    are told Done once and the source is closed once (the scenario of the seeded
+    change C16-a). *)
+Example c16_stack_unrecoverable :
+  let H := lookup [([1; 2; 3], [9; 9])] in
+  let cfg := mkVcfg [9; 9] 3 13 in
+  run_stack H cfg 60 (BChunk [Chunk [1]; Err 14; Chunk [7]]) [[Fail 7]; [Fail 9]] MIntoWriter
+  = mkOut16s [1] (ECode 9) [] [] [[HOnError (ECode 14); HDone]; [HOnError (ECode 7); HDone]] [1%nat] [].
+Proof. vm_compute. reflexivity. Qed.
+
+(** ... and one where the outer handler repairs what the inner one gave up:
+    the replacement is opened at offset 1, the inner handler is finished at that
+    moment, both sources are closed once. *)
+Example c16_stack_outer_repairs :
+  let H := lookup [([1; 2; 3], [9; 9])] in
+  let cfg := mkVcfg [9; 9] 3 13 in
+  run_stack H cfg 60 (BChunk [Chunk [1]; Err 14; Chunk [7]])
+            [[Fail 7]; [Replace (BChunk [Chunk [1; 2]; Chunk [3]])]] MIntoWriter
+  = mkOut16s [1; 2; 3] ENone [] [true]
+             [[HOnError (ECode 14); HDone]; [HOnError (ECode 7); HDone]] [1%nat; 1%nat] [].
 Proof. vm_compute. reflexivity. Qed.
